@@ -35,6 +35,17 @@ func RegistryInvariants(v *View, dump StateDump) (string, string) {
 	owner := map[signature.PublicKey]signature.PublicKey{} // key -> node
 	distinctKeys := 0
 	perEntity := map[signature.PublicKey]int{}
+	isNodeID := map[signature.PublicKey]bool{}
+	for _, n := range nodes {
+		isNodeID[n.ID] = true
+	}
+	for _, n := range nodes {
+		for name, k := range map[string]signature.PublicKey{"consensus": n.Consensus.ID, "p2p": n.P2P.ID, "tls": n.TLS.PubKey, "vrf": n.VRF.ID} {
+			if isNodeID[k] && k != n.ID {
+				return SigNodeKeyAsSubKey, fmt.Sprintf("public key %s is the identity key of one registered node and the %s key of node %s", k, name, n.ID)
+			}
+		}
+	}
 	for _, n := range nodes {
 		perEntity[n.EntityID]++
 		if !entityByID[n.EntityID] {
